@@ -18,13 +18,18 @@ TRUSTED_BASE = [
     "hand-written Lean model GFO/Model/* where the correspondence did not exercise it",
     "Python harness (capture wrappers, canonicalisation, protocol encoder, monitors) and the native driver's I/O glue + Lean compiler",
     "oracle inputs: objective/constraint determinism, RNG contracts, float expressions inside backends, sklearn/scipy, numpy/pandas containers",
-    "translators (harness/pytolean.py, pydriver.py, pystop.py, translators.py): the mapping tables from Python statement / expression forms to Lean terms "
-    "(attribute -> model field, comparison -> IEEE comparison on F, truthiness); what they generate is PROVED equal to the hand-written model, "
-    "what they map it from is trusted to mean what the table says",
-    "complete optimizer models (17 of 22): the oracle tape - outputs of the two generators, numpy's argsort (checked to be a descending arrangement), "
-    "constraint verdicts, float vectors of moves - is recorded by pass-through wrappers installed from outside and consumed in program order with the "
-    "arguments of the real calls checked; the hypotheses TapeOK (random positions are positions of the space, drawn vectors are nan-free, the constraint is "
-    "a function of the position) are assumptions about those libraries and the user's constraint",
+    "translators (harness/translators.py with pytolean, pydriver, pystop, pysmbo, pyinit, pymem, pycore, pyconv, pygrid): fourteen generators "
+    "regenerate Lean definitions from /repo's source on every run - tracker core, driver step methods, stop object + no_change + progress bar, "
+    "SMBO bookkeeping and selection, Initializer, Memory / ResultsManager wrappers and finish_search, CoreOptimizer position kernels, Converter, "
+    "grid machines, set_random_seed, split / sort_pop_best_score, facade table, entropy census - and what they generate is PROVED equal to the "
+    "hand-written model (GFO/Gen/*Check.lean); trusted: the mapping tables from Python statement / expression forms to Lean terms (attribute -> model "
+    "field, comparison -> IEEE comparison on F, truthiness, `int(a / b)` and `//` of naturals -> `/`, generator / constraint call -> tape read) and the "
+    "numpy lines that are pinned verbatim and stand for a model function (clip-cast, mesh, fancy indexing, masks)",
+    "complete optimizer models (all 22): the oracle tape - outputs of the two generators, numpy's argsort (checked to be a descending arrangement), "
+    "constraint verdicts, float vectors of moves, acquisition values - is recorded by pass-through wrappers installed from outside and consumed in program "
+    "order with the arguments of the real calls checked; the hypotheses TapeOK / GridOK (random positions and candidate-grid rows are positions of the space, "
+    "drawn vectors are nan-free, the constraint is a function of the position) are assumptions about those libraries and the user's constraint, audited on "
+    "every recorded tape",
 ]
 
 
